@@ -266,9 +266,16 @@ func snapshot(x interface{}) string {
 // Quiesce lets every other goroutine run until all of them are blocked or have
 // finished (natively: a short sleep).
 func Quiesce() {
-	for i := 0; i < 20; i++ {
+	// until the number of goroutines has not changed for 40 ms (at most 2 s on a loaded machine)
+	last, stable := runtime.NumGoroutine(), 0
+	for i := 0; i < 1000 && stable < 20; i++ {
 		runtime.Gosched()
 		time.Sleep(2 * time.Millisecond)
+		if n := runtime.NumGoroutine(); n == last {
+			stable++
+		} else {
+			last, stable = n, 0
+		}
 	}
 }
 
